@@ -49,9 +49,13 @@ pub fn one_chain(ctx: &WorkerCtx, rep: &mut WorkerReport, case_seed: u64, rounds
         if rng.chance(1, 3) {
             r.exec(Op::Commit);
         }
+        // a third of the reorgs arrive while the next block is open with nothing but parked
+        // (future-nonce) signed transactions: such a block has no waiting transaction, the reorg is
+        // accepted, and the parked entries belong to a block above N
+        let parked = if rng.chance(1, 3) { w.park_only(&mut r) } else { 0 };
         let h = r.height;
         let m = r.max_ever;
-        let n = pick_target(&mut rng, h, m);
+        let n = if parked > 0 && rng.chance(1, 2) { h.max(0) as u64 } else { pick_target(&mut rng, h, m) };
         let expect_accept = (n as i64) <= h && (n as i64) + 10 >= m;
         let orphan_start = r.log.len();
         // which ops are orphaned by this reorg: those of blocks > n on the surviving chain
@@ -108,6 +112,10 @@ pub fn one_chain(ctx: &WorkerCtx, rep: &mut WorkerReport, case_seed: u64, rounds
         rep.count("accepted", 1);
         if orphan_had_tx && (n as i64) < h {
             rep.nontrivial(format!("{}:{}", hd, n));
+        }
+        if parked > 0 {
+            rep.nontrivial(format!("{}:{}:parked-open-block", hd, n));
+            rep.count("reorgs_with_parked_open_block", 1);
         }
         // fresh twin fed only the surviving history up to n
         let mut f = new_driver("C01");
